@@ -136,6 +136,9 @@ class block_access_slice(TaskletMixin):
         from .task import value
         return [value(self[i]) for i in range(len(self))]
 
+    def __jug_dependencies__(self):
+        return self.base.__jug_dependencies__()
+
     def can_load(self):
         return self.base.can_load()
 
